@@ -1,5 +1,5 @@
-(* Model of cnvlib/descriptives.py as it is NOW (after fix d9d607e of
-   weighted_median): robust estimators of location and scale over exact
+(* Model of cnvlib/descriptives.py as it is NOW (after the fix commits up to
+   40f88ee): robust estimators of location and scale over exact
    rationals.  NaN is [None]; NaN stripping is done by [strip_nan] /
    [clean_weighted] exactly where the Python decorators do it.  Square roots
    are avoided: [biweight_midvariance_sq], [weighted_var] are the squares of
@@ -88,6 +88,26 @@ Fixpoint biloc_margin (fuel : nat) (c eps : Q) (a : list Q) (initial : Q) (m : Q
       let r := biloc_iter c eps a initial in
       let m2 := qmin2 m1 (qabs (qsub (qabs (qsub r initial)) eps)) in
       if qle_b (qabs (qsub r initial)) eps then m2 else biloc_margin k c eps a r m2
+  end.
+
+(* the same loop replayed on externally supplied iterates (the code's own floats,
+   observed through max_iter = 1): step k+1 starts from the supplied k-th iterate
+   instead of the exact one, so the rationals stay small.  Returns the exact result
+   of every step taken (the last one is the function's value) and the smallest
+   distance of a stop decision to its boundary.  With exact iterates supplied it
+   is [biloc_loop]. *)
+Fixpoint biloc_chain (fuel : nat) (c eps : Q) (a : list Q) (initial : Q) (its : list Q) (m : Q)
+  : list Q * Q :=
+  match fuel with
+  | O => ([], m)
+  | S k =>
+      let r := biloc_iter c eps a initial in
+      let m' := qmin2 m (qabs (qsub (qabs (qsub r initial)) eps)) in
+      if qle_b (qabs (qsub r initial)) eps then ([r], m')
+      else
+        let next := match its with r' :: _ => r' | [] => r end in
+        let (rs, m'') := biloc_chain k c eps a next (tl its) m' in
+        (r :: rs, m'')
   end.
 
 (* ---- mode: the KDE arg-max index is an oracle ----------------------------- *)
@@ -217,11 +237,13 @@ Definition qn_core (a : list Q) : Q :=
 Definition q_n (a : list Q) : option Q :=
   on_array (Some QN_DEFAULT) (fun a => Some (qn_core a)) a.
 
-(* mean squared error: deviations from [initial] (default: the mean; a zero
-   reference is not subtracted, which is the same thing) *)
+(* mean squared error: deviations from [initial] (default after fix 40f88ee: from
+   zero; [if initial:] -- None and 0 are not subtracted, which is the same thing) *)
 Definition mse_core (a : list Q) (initial : option Q) : Q :=
-  let i := match initial with Some i => i | None => qmean a end in
-  let a' := if qeq_b i 0 then a else sub_all i a in
+  let a' := match initial with
+            | Some i => if qeq_b i 0 then a else sub_all i a
+            | None => a
+            end in
   qmean (map qsq a').
 Definition mean_squared_error (a : list Q) (initial : option Q) : option Q :=
   on_array (Some MSE_DEFAULT) (fun a => Some (mse_core a initial)) a.
@@ -264,7 +286,9 @@ Definition weighted_mad_ord (ps : list (Q * Q)) (scale_to_sd : bool) (ord1 ord2 
 Fixpoint qpow (x : Q) (n : nat) : Q :=
   match n with O => 1 | S k => qmul x (qpow x k) end.
 
-Record bivar_parts := { bv_sum : Q; bv_fallback : Q; bv_formula : Q }.
+(* [bv_any]: some masked w is non-zero (the guard [not w[mask].any()] after fix
+   2c65616); [bv_sum] is kept for the float-ambiguity report only *)
+Record bivar_parts := { bv_any : bool; bv_sum : Q; bv_fallback : Q; bv_formula : Q; bv_margin : Q }.
 
 Definition bivar_parts_of (c eps : Q) (a : list Q) (initial : Q) : bivar_parts :=
   let d := sub_all initial a in
@@ -277,16 +301,19 @@ Definition bivar_parts_of (c eps : Q) (a : list Q) (initial : Q) : bivar_parts :
                                             (qpow (qsub 1 (qsq (snd p))) (Z.to_nat BIVAR_NUM_POW))) dw)) in
   let den := qsum (map (fun p => qmul (qsub 1 (qsq (snd p)))
                                       (qsub 1 (qmul BIVAR_DEN_COEF (qsq (snd p))))) dw) in
-  {| bv_sum := qsum (map snd dw);
+  {| bv_any := existsb (fun p => negb (qeq_b (snd p) 0)) dw;
+     bv_sum := qsum (map snd dw);
      bv_fallback := qsq (qmul mad BIVAR_MAD_SCALE);
-     bv_formula := qdiv num (qsq den) |}.
+     bv_formula := qdiv num (qsq den);
+     (* distance of the mask decision |w| < 1 to its boundary (the count n jumps there) *)
+     bv_margin := fold_right qmin2 1 (map (fun wi => qabs (qsub (qabs wi) BIVAR_MASK_BOUND)) w) |}.
 
 Definition bivar_initial (a : list Q) (initial : option Q) : Q :=
   match initial with Some i => i | None => biweight_location_core a None end.
 
 Definition bivar_sq_core (a : list Q) (initial : option Q) : Q :=
   let p := bivar_parts_of BIVAR_C BIVAR_EPS a (bivar_initial a initial) in
-  if qeq_b (bv_sum p) 0 then bv_fallback p else bv_formula p.
+  if bv_any p then bv_formula p else bv_fallback p.
 
 Definition biweight_midvariance_sq (a : list Q) (initial : option Q) : option Q :=
   on_array (Some (qsq BIVAR_DEFAULT)) (fun a => Some (bivar_sq_core a initial)) a.
